@@ -164,6 +164,10 @@ pub fn test_string(x: &String) -> TestResult {
 pub enum Op {
     Update(Fmt, String),
     ResetTags(usize),
+    /// update with the CURRENT raw text again, written in the given format (labels/tags chosen
+    /// by the salt): the same text twice in a row is what a corpus with repeated lines, or a
+    /// caller resetting a gold sentence to its unannotated form, produces
+    Reparse(Fmt, u16),
 }
 
 #[derive(Clone, Debug, Serialize, Deserialize)]
@@ -186,7 +190,31 @@ pub fn test_history(h: &History) -> TestResult {
     let mut nontrivial = false;
     let mut info = Info::default();
     for (k, op) in h.ops.iter().enumerate() {
+        // resolve a Reparse into a concrete Update of the current raw text
+        let resolved;
+        let op = match op {
+            Op::Reparse(fmt, salt) => {
+                let chars: Vec<char> = s.as_raw_text().chars().collect();
+                let n = chars.len();
+                let salt = *salt as usize;
+                let rs = RefSentence {
+                    labels: (0..n - 1).map(|i| ((i * 7 + salt) % 3) as u8).map(|l| if *fmt == Fmt::Tokenized && l == UNK { 1 } else { l }).collect(),
+                    tags: (0..n).map(|i| if (i + salt) % 2 == 0 { vec![Some(format!("T{}", (i + salt) % 3))] } else { vec![] }).collect(),
+                    n_tags: 1,
+                    chars,
+                };
+                let x = match fmt {
+                    Fmt::Raw => rs.text(),
+                    Fmt::Tokenized => oracle::ref_write_tokenized(&rs),
+                    Fmt::Partial => oracle::ref_write_partial(&rs),
+                };
+                resolved = Op::Update(*fmt, x);
+                &resolved
+            }
+            other => other,
+        };
         match op {
+            Op::Reparse(..) => unreachable!(),
             Op::Update(fmt, x) => {
                 let res = update(&mut s, *fmt, x);
                 let o = util::observe(&s);
@@ -261,6 +289,7 @@ pub fn history_strategy() -> impl Strategy<Value = History> {
             prop_oneof![
                 5 => (fmt_strategy(), string_strategy(8)).prop_map(|(f, x)| Op::Update(f, x)),
                 1 => (0usize..=4).prop_map(Op::ResetTags),
+                2 => (fmt_strategy(), any::<u16>()).prop_map(|(f, x)| Op::Reparse(f, x)),
             ],
             1..=8,
         ),
